@@ -1,21 +1,39 @@
 ---- MODULE TMutex ----
+(* I-spec of pkg/tmutex at the granularity of its atomic operations, with the
+   P-level properties of C18 as invariants / temporal formulas.
+     v   : the state word (1 free, 0 held no waiters, -1 held/contended)
+     ch  : number of tokens in the 1-buffered wake-up channel
+   Fine = TRUE : LockLoad and LockSwap are separate steps (the code's real
+                 atomicity: a load followed by a swap).
+   Fine = FALSE: the load and the swap of one loop iteration are one step; this
+                 is the granularity at which the gate scheduler can drive the
+                 real code (the two operations sit in one Go expression, and the
+                 hooks are add-only), used for the graph comparison. *)
 EXTENDS Integers, Sequences, FiniteSets, TLC
-CONSTANTS Procs, MaxOps
+CONSTANTS Procs, MaxOps, Fine
 VARIABLES v, ch, pc, ops, holder
 vars == <<v, ch, pc, ops, holder>>
 Init == v = 1 /\ ch = 0 /\ pc = [p \in Procs |-> "idle"] /\ ops = [p \in Procs |-> 0] /\ holder = {}
+
 StartLock(p) == pc[p] = "idle" /\ ops[p] < MaxOps /\ pc' = [pc EXCEPT ![p] = "lock_add"]
                 /\ ops' = [ops EXCEPT ![p] = @ + 1] /\ UNCHANGED <<v, ch, holder>>
-LockAdd(p) == pc[p] = "lock_add" /\ v' = v - 1 /\
-   (IF v - 1 = 0 THEN pc' = [pc EXCEPT ![p] = "held"] /\ holder' = holder \cup {p}
-    ELSE pc' = [pc EXCEPT ![p] = "lock_load"] /\ UNCHANGED holder)
-   /\ UNCHANGED <<ch, ops>>
-LockLoad(p) == pc[p] = "lock_load" /\ pc' = [pc EXCEPT ![p] = IF v >= 0 THEN "lock_swap" ELSE "lock_recv"]
-               /\ UNCHANGED <<v, ch, ops, holder>>
-LockSwap(p) == pc[p] = "lock_swap" /\ v' = -1 /\
-   (IF v = 1 THEN pc' = [pc EXCEPT ![p] = "held"] /\ holder' = holder \cup {p}
-    ELSE pc' = [pc EXCEPT ![p] = "lock_recv"] /\ UNCHANGED holder)
-   /\ UNCHANGED <<ch, ops>>
+LockAdd(p) == /\ pc[p] = "lock_add" /\ v' = v - 1
+              /\ (IF v - 1 = 0 THEN pc' = [pc EXCEPT ![p] = "held"] /\ holder' = holder \cup {p}
+                  ELSE pc' = [pc EXCEPT ![p] = "lock_load"] /\ UNCHANGED holder)
+              /\ UNCHANGED <<ch, ops>>
+LockLoad(p) == /\ pc[p] = "lock_load"
+               /\ IF Fine
+                  THEN pc' = [pc EXCEPT ![p] = IF v >= 0 THEN "lock_swap" ELSE "lock_recv"] /\ UNCHANGED <<v, holder>>
+                  ELSE IF v >= 0
+                       THEN /\ v' = -1
+                            /\ (IF v = 1 THEN pc' = [pc EXCEPT ![p] = "held"] /\ holder' = holder \cup {p}
+                                ELSE pc' = [pc EXCEPT ![p] = "lock_recv"] /\ UNCHANGED holder)
+                       ELSE pc' = [pc EXCEPT ![p] = "lock_recv"] /\ UNCHANGED <<v, holder>>
+               /\ UNCHANGED <<ch, ops>>
+LockSwap(p) == /\ pc[p] = "lock_swap" /\ v' = -1
+               /\ (IF v = 1 THEN pc' = [pc EXCEPT ![p] = "held"] /\ holder' = holder \cup {p}
+                   ELSE pc' = [pc EXCEPT ![p] = "lock_recv"] /\ UNCHANGED holder)
+               /\ UNCHANGED <<ch, ops>>
 LockRecv(p) == pc[p] = "lock_recv" /\ ch = 1 /\ ch' = 0 /\ pc' = [pc EXCEPT ![p] = "lock_load"]
                /\ UNCHANGED <<v, ops, holder>>
 StartUnlock(p) == pc[p] = "held" /\ pc' = [pc EXCEPT ![p] = "unlock_swap"] /\ holder' = holder \ {p}
@@ -27,18 +45,27 @@ StartTry(p) == pc[p] = "idle" /\ ops[p] < MaxOps /\ pc' = [pc EXCEPT ![p] = "try
                /\ ops' = [ops EXCEPT ![p] = @ + 1] /\ UNCHANGED <<v, ch, holder>>
 TryLoad(p) == pc[p] = "try_load" /\ pc' = [pc EXCEPT ![p] = IF v <= 0 THEN "idle" ELSE "try_cas"]
               /\ UNCHANGED <<v, ch, ops, holder>>
-TryCas(p) == pc[p] = "try_cas" /\
-   (IF v = 1 THEN v' = 0 /\ pc' = [pc EXCEPT ![p] = "held"] /\ holder' = holder \cup {p}
-    ELSE pc' = [pc EXCEPT ![p] = "idle"] /\ UNCHANGED <<v, holder>>)
-   /\ UNCHANGED <<ch, ops>>
+TryCas(p) == /\ pc[p] = "try_cas"
+             /\ (IF v = 1 THEN v' = 0 /\ pc' = [pc EXCEPT ![p] = "held"] /\ holder' = holder \cup {p}
+                 ELSE pc' = [pc EXCEPT ![p] = "idle"] /\ UNCHANGED <<v, holder>>)
+             /\ UNCHANGED <<ch, ops>>
 Next == \E p \in Procs : StartLock(p) \/ LockAdd(p) \/ LockLoad(p) \/ LockSwap(p) \/ LockRecv(p)
           \/ StartUnlock(p) \/ UnlockSwap(p) \/ UnlockSend(p) \/ StartTry(p) \/ TryLoad(p) \/ TryCas(p)
 Fair == \A p \in Procs : WF_vars(LockAdd(p)) /\ WF_vars(LockLoad(p)) /\ WF_vars(LockSwap(p)) /\ WF_vars(LockRecv(p))
           /\ WF_vars(StartUnlock(p)) /\ WF_vars(UnlockSwap(p)) /\ WF_vars(UnlockSend(p)) /\ WF_vars(TryLoad(p)) /\ WF_vars(TryCas(p))
 Spec == Init /\ [][Next]_vars /\ Fair
+
+\* ---- C18
 Mutex == Cardinality(holder) <= 1
-InLock(p) == pc[p] \in {"lock_add","lock_load","lock_swap","lock_recv"}
+InLock(p) == pc[p] \in {"lock_add", "lock_load", "lock_swap", "lock_recv"}
+InFlight(q) == pc[q] \in {"held", "unlock_swap", "unlock_send", "lock_load", "lock_swap", "lock_add", "try_cas"}
+\* no goroutine sleeps (parked at the receive with no token) while the mutex is free and nobody is in flight
+NoLostWakeup == (\E p \in Procs : pc[p] = "lock_recv") => (ch = 1 \/ \E q \in Procs : InFlight(q))
+\* TryLock succeeds only by acquiring, never blocks (it has no receive on its path: structural),
+\* and succeeds when the mutex is free and nobody else is inside an operation
+TryOK == \A p \in Procs : (pc[p] \in {"try_load", "try_cas"} /\ holder = {} /\ \A q \in Procs \ {p} : pc[q] = "idle") => v = 1
+TypeOK == v \in {-1, 0, 1} \/ v < -1
+\* every Lock call returns (someone acquires) under fair scheduling of the bounded programs
 NoStarve == \A p \in Procs : InLock(p) ~> (\E q \in Procs : pc[q] = "held")
-NoLostWakeup == ~(\E p \in Procs : pc[p] = "lock_recv") \/ ch = 1
-   \/ (\E q \in Procs : pc[q] \in {"held","unlock_swap","unlock_send","lock_load","lock_swap","lock_add","try_cas"})
+LockReturns == \A p \in Procs : InLock(p) ~> pc[p] = "held"
 ====
